@@ -79,16 +79,32 @@ class Judge:
                 viol(channel, text, list(expected), list(actual))
 
         refs = [self.ref(rid, t) for t in texts]
+        reach = res['reach'] = []
+        if any(r[0] == 'ok' and r[1] and not r[1].endswith('\n') for r in refs[:-1]):
+            reach.append('nonlast_file_output_without_final_newline')
+        if any(r[0] == 'ok' and r[1] == '' for r in refs[:-1]):
+            reach.append('nonlast_file_empty_output')
+        if any(r[0] != 'ok' for r in refs):
+            reach.append('library_raises_on_a_file')
+        if any(len(t) > 65536 for t in texts):
+            reach.append('text_over_64k_chars')
+        if len(set(names)) < len(names):
+            reach.append('same_path_twice')
         # library channels on the first text (scenarios rotate texts, so every text gets there)
         t0 = texts[0]
-        if not scn.get('cli_only'):
+        only = scn.get('only')          # set while shrinking: evaluate just the channel whose violation is being minimised
+        if not scn.get('cli_only') and not (only and only.startswith('cli')):
             for ch in CW.LIB_CHANNELS:
+                if only and ch != only:
+                    continue
                 out = _fork(lambda: CW.lib_channel(ch, t0, rid, knobs, scn['seed']))
                 cmp(ch, t0, refs[0], out)
-            if t0 and not t0.endswith('\n'):
+            if t0 and not t0.endswith('\n') and (not only or only == 'str_nl'):
                 out = _fork(lambda: CW.lib_channel('str_nl', t0, rid))
                 cmp('str_nl', t0, refs[0], out)
         # command-line tool
+        if only and not only.startswith('cli'):
+            return res
         if not self.check_seam():
             res['seam_lost'] = True
             return res
@@ -178,15 +194,78 @@ def scenario(seed, corp, batch, idx):
     return scn
 
 
-def corpus_scenarios(corp):
-    """Systematic part: every corpus text x one renderer (rotating), single-file, all channels."""
+def corpus_scenarios(corp, tier='quick'):
+    """Systematic part: every corpus text (and the size-threshold texts) x one renderer (rotating), single-file, all channels."""
     out = []
-    for i, t in enumerate(corp):
+    for i, t in enumerate(list(corp) + G.big_texts(corp, tier)):
         rid = W.BUNDLED_IDS[i % len(W.BUNDLED_IDS)]
         out.append({'R': rid, 'texts': [t], 'names': ['f0.md'], 'fault': None, 'seed': i, 'batch': 'corpus', 'index': i,
                     'knobs': {'bufsize': [4, 16, 8192][i % 3], 'read_chunk': [1, 3, 8192][i % 3], 'write_chunk': [1, 5, 8192][(i // 3) % 3],
                               'out_bufsize': [1, 64, 8192][(i // 9) % 3], 'locale': G.LOCALES[i % 4], 'stdout_encoding': G.STDOUT_ENCODINGS[i % 5],
                               'entry': ['cli.main', '__main__'][i % 2], 'omit_r': False}})
+    return out
+
+
+def output_census(corp):
+    """Phase 0: the shape of the reference output of every corpus text under every bundled renderer (empty / no final
+    newline / raises / ordinary), computed in pristine forks. Used to BUILD multi-file scenarios around the rare shapes:
+    what a file prints without a final newline, or prints nothing, is exactly where per-file output handling can go wrong."""
+    jobs = [(rid, i) for rid in W.BUNDLED_IDS for i in range(len(corp))]
+    shapes = {}
+
+    def fn(widx, nw, emit):
+        mine = {}
+        for j in range(widx, len(jobs), nw):
+            rid, i = jobs[j]
+            out = _fork(lambda: CW.lib_channel('str', corp[i], rid))
+            if out[0] != 'ok':
+                sh = 'raises'
+            elif out[1] == '':
+                sh = 'empty'
+            elif not out[1].endswith('\n'):
+                sh = 'no_final_newline'
+            elif not out[1].isascii():
+                sh = 'non_ascii'
+            else:
+                sh = 'ordinary'
+            if sh != 'ordinary':
+                mine[(rid, i)] = sh
+        emit(('done', mine))
+
+    def on_frame(i, frame):
+        if frame[0] == 'done':
+            shapes.update(frame[1])
+    core.run_pool(core.n_workers(), fn, on_frame, 900)
+    return shapes
+
+
+_CENSUS = {}
+
+
+def shape_scenarios(corp, tier):
+    """Multi-file command-line scenarios built around texts whose output has a rare shape, in first / middle / last position."""
+    shapes = output_census(corp)
+    _CENSUS.clear()
+    per = 12 if tier == 'thorough' else 4
+    out = []
+    idx = 0
+    by = {}
+    for (rid, i), sh in sorted(shapes.items()):
+        by.setdefault((rid, sh), []).append(i)
+        _CENSUS[sh] = _CENSUS.get(sh, 0) + 1
+    ordinary = [t for t in corp if t.strip() and len(t) < 400][:50] or ['plain\n']
+    for (rid, sh), idxs in sorted(by.items()):
+        step = max(1, len(idxs) // per)
+        for n, i in enumerate(idxs[::step][:per]):
+            t = corp[i]
+            o1, o2 = ordinary[(idx * 7) % len(ordinary)], ordinary[(idx * 11 + 3) % len(ordinary)]
+            for texts in ([t, o1], [o1, t, o2], [t, t], [t, '', o1]):
+                idx += 1
+                out.append({'R': rid, 'texts': texts, 'names': ['f%d.md' % k for k in range(len(texts))], 'fault': None,
+                            'seed': idx, 'batch': 'shapes', 'index': idx, 'cli_only': True, 'shape': sh,
+                            'knobs': {'bufsize': [16, 8192][idx % 2], 'read_chunk': [3, 8192][idx % 2], 'write_chunk': [5, 8192][(idx // 2) % 2],
+                                      'out_bufsize': [8, 8192][(idx // 4) % 2], 'locale': G.LOCALES[idx % 4],
+                                      'stdout_encoding': 'utf-8', 'entry': ['cli.main', '__main__'][idx % 2], 'omit_r': False}})
     return out
 
 
@@ -197,7 +276,7 @@ def worker_main(tier, seed, pl, corp, corpus_scn):
     def fn(widx, nw, emit):
         judge = Judge()
         agg = {'runs': 0, 'compared': 0, 'stats': {}, 'fired': {}, 'digests': set(), 'nontrivial': 0, 'violations': 0,
-               'by_batch': {}, 'samples': {}, 'seam_lost': 0, 'texts': set(), 'multi_file': 0}
+               'by_batch': {}, 'samples': {}, 'seam_lost': 0, 'texts': set(), 'multi_file': 0, 'reach': {}}
         for g in range(widx, total, nw):
             if g < n_c:
                 scn = corpus_scn[g]
@@ -218,6 +297,8 @@ def worker_main(tier, seed, pl, corp, corpus_scn):
                 agg['fired'][kind] = agg['fired'].get(kind, 0) + 1
             if res.get('seam_lost'):
                 agg['seam_lost'] += 1
+            for r in res.get('reach', []):
+                agg['reach'][r] = agg['reach'].get(r, 0) + 1
             for t in scn['texts']:
                 agg['texts'].add(_sha(t))
             if len(scn['texts']) > 1:
@@ -266,7 +347,7 @@ def digests(seed, tier, indices, nw=None):
 # ---------------------------------------------------------------------------------------------
 # shrinking
 
-def minimise(judge, viol, max_evals=250):
+def minimise(judge, viol, max_evals=160):
     klass = viol['klass']
     budget = [max_evals]
 
@@ -282,6 +363,7 @@ def minimise(judge, viol, max_evals=250):
     scn = copy.deepcopy(viol['scenario'])
     if not fails(scn):
         return viol, False
+    scn['only'] = klass
     # fewer files
     i = len(scn['texts']) - 1
     while i >= 0 and len(scn['texts']) > 1:
@@ -314,10 +396,13 @@ def minimise(judge, viol, max_evals=250):
                 c = copy.deepcopy(scn)
                 c['texts'][ti] = ''.join(its)
                 return c
-            items = shrink_mod.ddmin(items, lambda its: CW.in_domain(''.join(its)) and fails(with_items(its)), [10 ** 9])
+            items = shrink_mod.ddmin(items, lambda its: CW.in_domain(''.join(its)) and fails(with_items(its)), budget)
             scn = with_items(items)
     budget[0] = 5
+    scn.pop('only', None)
     r = judge.run(scn)
+    if r['violation'] is None or r['violation']['klass'] != klass:
+        return viol, True          # keep the unshrunk record rather than a candidate that no longer fails in full
     v = dict(r['violation'])
     for k in ('seed', 'tier', 'batch', 'index'):
         v[k] = viol.get(k)
@@ -400,9 +485,9 @@ def run_check(tier, seed):
     t0 = time.time()
     pl = plan(tier)
     corp = G.corpus()
-    corpus_scn = corpus_scenarios(corp)
+    corpus_scn = corpus_scenarios(corp, tier) + shape_scenarios(corp, tier)
     total = {'runs': 0, 'compared': 0, 'stats': {}, 'fired': {}, 'digests': set(), 'nontrivial': 0, 'violations': 0,
-             'by_batch': {}, 'samples': {}, 'seam_lost': 0, 'texts': set(), 'multi_file': 0}
+             'by_batch': {}, 'samples': {}, 'seam_lost': 0, 'texts': set(), 'multi_file': 0, 'reach': {}}
     viols = []
 
     def on_frame(i, frame):
@@ -414,7 +499,7 @@ def run_check(tier, seed):
                 total[k] += a[k]
             for k in ('digests', 'texts'):
                 total[k] |= a[k]
-            for k in ('stats', 'fired'):
+            for k in ('stats', 'fired', 'reach'):
                 for kk, n in a[k].items():
                     total[k][kk] = total[k].get(kk, 0) + n
             for b, bb in a['by_batch'].items():
@@ -437,7 +522,11 @@ def run_check(tier, seed):
     for v in sorted(viols, key=lambda v: (len(json.dumps(v['scenario'])), v['batch'], v['index'])):
         by_class.setdefault(v['klass'], []).append(v)
     reported, known_lines = [], []
-    for klass, vs in sorted(by_class.items()):
+    MAX_CLASSES = 8      # one minimised replay per class; further classes are counted, not shrunk
+    ranked = sorted(by_class.items(), key=lambda kv: (-len(kv[1]), kv[0]))
+    if len(ranked) > MAX_CLASSES:
+        print('note: %d violation classes seen, reporting the %d most frequent' % (len(ranked), MAX_CLASSES))
+    for klass, vs in ranked[:MAX_CLASSES]:
         v, ok = minimise(judge, vs[0])
         if not ok:
             raise core.HarnessError('C15 violation did not reproduce when re-executed: batch=%s index=%s' % (vs[0]['batch'], vs[0]['index']))
@@ -477,6 +566,8 @@ def evidence(tier, seed, out, st):
             'batches': total['by_batch'],
             'distinct_texts': len(total['texts']),
             'corpus_texts_in_domain': out['corpus'],
+            'output_shape_census': dict(_CENSUS),
+            'rare_conditions_reached': total['reach'],
             'multi_file_scenarios': total['multi_file'],
             'faults_fired': total['fired'],
             'device_events': total['stats'],
